@@ -447,6 +447,7 @@ pub fn run_check(eng: &'static dyn Engine, o: &Opts) -> i32 {
             "property": o.prop, "class": class, "seed": seed, "detail": use_res.detail, "minimiser_runs": used,
             "original_steps": plan["steps"].as_array().map_or(0, |x| x.len()),
             "plan": use_plan, "tail": use_res.tail,
+            "build": if cfg!(feature = "pl") { "default" } else { "stdlocks" },
         });
         let _ = std::fs::write(&path, serde_json::to_string_pretty(&doc).unwrap());
         println!("VIOLATION property={} replay={}", o.prop, path);
@@ -500,11 +501,12 @@ pub fn run_check(eng: &'static dyn Engine, o: &Opts) -> i32 {
                 "search_wall_s": search_wall,
                 "components": eng.components(),
                 "other_corpora_explored_before_this_run": std::env::var("VERIF_OTHER_CORPORA").unwrap_or_default(),
+                "std_locks_pass_before_this_run": std::env::var("VERIF_STDLOCKS_PASS").unwrap_or_default(),
                 "replays": replay_paths,
             },
             "assumptions": [
                 "sequential consistency: the scheduler interleaves whole atomic operations; weak memory orderings are not explored",
-                "explored feature configuration is portable-atomic + parking_lot (the seams), see DESIGN.md 2.2",
+                "explored feature configuration is portable-atomic + parking_lot (the seams), see DESIGN.md 2.2; for the tracing-subscriber engines a shorter pass of total-order runs under std's poisoning locks (the crates' default configuration) precedes each run, see coverage.std_locks_pass_before_this_run",
                 "shims (atomics, RwLock, bounded channel) are faithful to the documented semantics of the crates they replace",
                 "reference models in the harness are the oracle and are trusted",
                 "sampling, not proof: a clean batch is evidence"
